@@ -33,6 +33,7 @@ inductive Rx where
   | rep (r : Rx) (lo : Nat) (hi : Option Nat)      -- greedy
   | grp (i : Nat) (r : Rx)
   | ahead (r : Rx)
+  | nahead (r : Rx)                                -- negative look-ahead `(?!…)`
   | behind (s : CharSet)                           -- width-1 look-behind
   | wordb (w : CharSet)                            -- \b, `w` = the runtime's \w
   | eos                                            -- `$` (no MULTILINE)
@@ -98,6 +99,11 @@ def Rx.m {R : Type} : Rx → St → (St → Option R) → Option R
     match r.m (R := St) s some with
     | some s' => k { s with caps := s'.caps }
     | none => none
+  | .nahead r, s, k =>
+    -- `(?!r)`: succeeds, consuming nothing and keeping no capture, exactly when `r` cannot match here
+    match r.m (R := St) s some with
+    | some _ => none
+    | none => k s
   | .behind cs, s, k =>
     match s.prev with
     | some c => if cs.mem c then k s else none
@@ -210,7 +216,7 @@ def Rx.anchorFree : Rx → Bool
   | .eps | .fail | .chr _ => true
   | .seq a b | .alt a b => a.anchorFree && b.anchorFree
   | .rep r _ _ | .grp _ r => r.anchorFree
-  | .ahead _ | .behind _ | .wordb _ | .eos | .bos => false
+  | .ahead _ | .nahead _ | .behind _ | .wordb _ | .eos | .bos => false
 
 /-- minimum width of a match (as `sre`'s getwidth lower bound) -/
 def Rx.minWidth : Rx → Nat
@@ -221,7 +227,7 @@ def Rx.minWidth : Rx → Nat
   | .alt a b => min a.minWidth b.minWidth
   | .rep r lo _ => lo * r.minWidth
   | .grp _ r => r.minWidth
-  | .ahead _ | .behind _ | .wordb _ | .eos | .bos => 0
+  | .ahead _ | .nahead _ | .behind _ | .wordb _ | .eos | .bos => 0
 
 /-- a single-character body (possibly wrapped in groups) -/
 def Rx.isChr : Rx → Bool
@@ -235,7 +241,7 @@ def Rx.safe : Rx → Bool
   | .rep r _ (some _) => r.safe
   | .rep r _ none => r.isChr
   | .grp _ r => r.safe
-  | .ahead r => r.safe
+  | .ahead r | .nahead r => r.safe
 
 /-- number of unbounded repeats (a crude degree bound for the cost polynomial) -/
 def Rx.stars : Rx → Nat
@@ -244,6 +250,6 @@ def Rx.stars : Rx → Nat
   | .alt a b => max a.stars b.stars
   | .rep r _ (some h) => h * r.stars
   | .rep r _ none => 1 + r.stars
-  | .grp _ r | .ahead r => r.stars
+  | .grp _ r | .ahead r | .nahead r => r.stars
 
 end PyTRS
